@@ -122,6 +122,46 @@ theorem C14_plain_if_free (H : Name → Option Nat) (en : Entry) (rest : List En
     (assignNames H (en :: rest) used).head? = some (en.path, expandName H en.trace en.elem) :=
   assignNames_head_plain H en rest used h
 
+/-- ancestors qualify a name only when needed: if the hint of a PascalCase name is `n` (own name + `n - 1`
+ancestors), then no smaller number `i` of trace items (up to the length of the shortest trace) separates all
+positions of that name -/
+theorem C14_minimal (all : List (Name × List Name)) (k : Name) (n : Nat) (h : hintOf all k = some n) :
+    ∀ i, 1 ≤ i → i < n → i ≤ ((traceGroup all k).map List.length).min?.getD 0 →
+      ¬ ((traceGroup all k).map (traceBuffer i)).Nodup := by
+  intro i hi1 hin himin
+  unfold hintOf at h
+  split at h
+  · cases h
+  · simp only [Option.some.injEq] at h; omega
+  · simp only [Option.some.injEq] at h
+    unfold minimalDifferentLengths at h
+    simp only at h
+    have hrange : i - 1 ∈ List.range (((traceGroup all k).map List.length).min?.getD 0) := List.mem_range.mpr (by omega)
+    have hi : i - 1 + 1 = i := by omega
+    split at h
+    · rename_i i0 hfind
+      have hlt : i - 1 < i0 := by omega
+      have hbefore := List.find?_eq_some_iff_append.mp hfind
+      obtain ⟨-, as, bs, hsplit, hall⟩ := hbefore
+      have hlen : as.length = i0 := by
+        have : (List.range (((traceGroup all k).map List.length).min?.getD 0))[as.length]? = some i0 := by rw [hsplit]; simp
+        rw [List.getElem?_range] at this
+        · simpa using this
+        · have := congrArg List.length hsplit; simp at this; omega
+      have hmem : i - 1 ∈ as := by
+        have : (List.range (((traceGroup all k).map List.length).min?.getD 0))[i - 1]? = some (i - 1) := by
+          rw [List.getElem?_range]; exact List.mem_range.mp hrange
+        rw [hsplit, List.getElem?_append_left (by omega)] at this
+        exact List.mem_of_getElem? this
+      have := hall (i - 1) hmem
+      rw [hi] at this
+      simpa using this
+    · rename_i hnone
+      rw [List.find?_eq_none] at hnone
+      have := hnone (i - 1) hrange
+      rw [hi] at this
+      simpa using this
+
 /-- non-vacuity / witnesses of D4 after the fix: `<self a="1"/>` is named `Self1`, `Foo`/`foo` siblings get `RPFoo`, `RPFoo1` -/
 example : (renderAST Options.quickXmlDe (Elem.new (cl!"self") [cl!"a"])).map (·.name) = [cl!"Self1"] := by decide +kernel
 
